@@ -20,6 +20,10 @@
 (* Timestamps are abstract small integers; the driver maps them strictly monotonically into               *)
 (* [models.MinNanoTime, models.MaxNanoTime] (range bounds of C37 may also be MinInt64 / MaxInt64).        *)
 (* Value ids are small integers that say where a point came from (array / file / write number).           *)
+(* Refinements used by the compaction driver (the expectation is refined the same way): a point (t, id)    *)
+(* may be stretched into k concrete points t*..t*+k-1 with the same id and a block cut into consecutive    *)
+(* blocks of 1 or 2 points (a key with many blocks); tombstones are added either on the closed file or on  *)
+(* the live reader through the batch API, as Engine.deleteSeriesRange does.                                *)
 EXTENDS Integers, Sequences, FiniteSets, TLC
 
 CONSTANTS Family,     \* "arrays" | "read" | "compact" | "snapshot"
